@@ -208,13 +208,13 @@ def build_matrix(pid, pos, with_dflt, slim):
     for (ff, n, vals) in [(inc, "EnIZ", [0, 2]), (inc, "EnIN", [1, 4]), (f, "EnZ", [0, 3]), (f, "EnN", [1, 5])]:
         p.enums[(ff, n)] = vals; p.order[ff].append(("e", n))
     E = lambda ff, n: Ty("E", file=ff, name=n)
-    for (n, t) in [("TdI", Ty("i")), ("TdS", Ty("s")), ("TdEZ", E(f, "EnZ")), ("TdEN", E(f, "EnN")), ("TdIZ", E(inc, "EnIZ")),
+    for (n, t) in [("TdI", Ty("i")), ("TdS", Ty("s")), ("TdD", Ty("d")), ("TdEZ", E(f, "EnZ")), ("TdEN", E(f, "EnN")), ("TdIZ", E(inc, "EnIZ")),
                    ("TdIN", E(inc, "EnIN")), ("TdL", Ty("L", Ty("i"))), ("TdM", Ty("M", Ty("s"), Ty("i")))]:
         p.typedefs[(f, n)] = t; p.order[f].append(("t", n))
     p.structs[(f, "StLeaf")] = ("s", [(1, "d", "la1", Ty("i")), (2, "o", "lb2", Ty("s"))]); p.order[f].append(("r", "StLeaf"))
     T = lambda n: Ty("T", file=f, name=n)
     leaves = [("b", Ty("b")), ("y", Ty("y")), ("h", Ty("h")), ("i", Ty("i")), ("l", Ty("l")), ("d", Ty("d")), ("s", Ty("s")), ("x", Ty("x")),
-              ("ez", E(f, "EnZ")), ("en", E(f, "EnN")), ("ti", T("TdI")), ("ts", T("TdS")), ("tez", T("TdEZ")), ("ten", T("TdEN")),
+              ("ez", E(f, "EnZ")), ("en", E(f, "EnN")), ("ti", T("TdI")), ("ts", T("TdS")), ("td", T("TdD")), ("tez", T("TdEZ")), ("ten", T("TdEN")),
               ("tiz", T("TdIZ")), ("tin", T("TdIN")), ("tl", T("TdL")), ("tm", T("TdM")), ("st", Ty("S", file=f, name="StLeaf"))]
     keyable = [x for x in leaves if x[0] in ("b", "y", "h", "i", "l", "s", "ez", "en", "ti", "ts", "tez", "tiz")]
     types = list(leaves)
@@ -261,11 +261,18 @@ def matrix_jobs(r, p, jobs, meta):
         for (i, _, _, t) in fields:
             cd = p.cmp_dflt(key, i)
             for which, val in (("zero", mx_zero(p, t)), ("nonzero", mx_nonzero(p, t))):
-                if cd is not None and val == cd: continue        # known finding go-union-default-field (witness job below)
+                if cd is not None and go_eq(val, cd): continue        # known finding go-union-default-field (witness job below)
                 v = ("(", {i: val})
                 ops = ("w", "r", "p") if which == "zero" else ("wrp"[rot % 3],)
                 rot += 1
                 for op in ops: add(op, v, "valid" if op != "r" else "conforming")
+            if with_dflt:
+                # values at the boundary of the declared default (one ulp away, one byte changed, the next constant…)
+                for _ in range(3):
+                    nv = gen_near(r, p, t, p.dflt(key, i))
+                    if nv is None or (cd is not None and go_eq(nv, cd)): continue
+                    rot += 1
+                    add("wrp"[rot % 3], ("(", {i: nv}), "valid" if "wrp"[rot % 3] != "r" else "conforming")
         f1, f2 = fields[0], fields[1]
         two = ("(", {f1[0]: gen_set_val(r, p, key, f1[0], f1[3], 2), f2[0]: gen_set_val(r, p, key, f2[0], f2[3], 2)})
         for op in ("w", "r"): add(op, ("(", {}), "union0"); add(op, two, "union2")
@@ -278,6 +285,13 @@ def matrix_jobs(r, p, jobs, meta):
             if req == "o" and c == 2: continue
             fv[i] = mx_zero(p, t) if c == 0 else (mx_nonzero(p, t) if c == 1 or req != "o" else mx_zero(p, t))
         vals.append(("(", fv))
+    if with_dflt:
+        for _ in range(8):      # every field at the boundary of its declared default
+            fv = {}
+            for (i, req, _, t) in fields:
+                nv = gen_near(r, p, t, p.dflt(key, i))
+                fv[i] = nv if nv is not None else mx_nonzero(p, t)
+            vals.append(("(", fv))
     for v in vals:
         add("w", v, "valid"); add("r", v, "conforming"); add("p", v, "valid"); add("r", v, "unknown-fields", unk=True)
         if with_dflt and pos == "d":
